@@ -875,8 +875,10 @@ class Exec:
             self.last_fault = f
         if self.fs.fired:
             self.nontrivial = True
+        # the outcome of reading a torn sink is not judged and depends on the exact bytes left behind (which, for
+        # set-valued data, depend on the hash seed): it is kept out of the digest
         self.trace.add(op['op'], i, sink.name, fmt, via, state, len(docs),
-                       'raised:' + type(raised).__name__ if raised else 'ok', fired)
+                       'unjudged' if state == 'torn' else ('raised:' + type(raised).__name__ if raised else 'ok'), fired)
         if state == 'torn':
             self.count('read_of_torn')
         if state == 'absent' and sink.obj is None and sink.name != 'str0' and not err_fired:
